@@ -141,6 +141,21 @@ Theorem C05_remove_in_block_fresh :
 Proof. exact remove_in_block_fresh_w. Qed.
 Print Assumptions C05_remove_in_block_fresh.
 
+(* handle provenance / working directory (added with seeded change C05-5).  MODELLING STEP: a document is identified
+   by project + job; buffer and files are keyed by the canonical absolute file name.  The model's run does not depend
+   on how a Job/Project object was obtained nor on chdir; all handles on one project/job are one equivalence class.
+   That the implementation canonicalises the file name is in the trusted base and checked by the correspondence on
+   every provenance it generates (init_project, get_project absolute/relative, signac.Project(relative),
+   signac.Project(path with '..' and trailing slash), and — unbuffered only — a symlinked prefix). *)
+Theorem C05_provenance_irrelevant : forall (frepr : fl -> str) prog js,
+  jrun frepr merge js (erase_prov prog) = jrun frepr merge js prog.
+Proof. exact jrun_provenance. Qed.
+Print Assumptions C05_provenance_irrelevant.
+
+Theorem C05_cwd_irrelevant : forall (frepr : fl -> str) js d, jstep frepr merge js (JCwd d) = (js, Ok JNull).
+Proof. exact cwd_irrelevant. Qed.
+Print Assumptions C05_cwd_irrelevant.
+
 (* licence for the correspondence step: when the implementation's observations ARE the model's, the oracle's
    verdict on the implementation is its verdict on the model run (and there is no mismatch iff the model agrees
    with itself).  The harness reports how many cases agree exactly; the others are compared up to key order. *)
